@@ -44,6 +44,17 @@ def clause_props(contract, kind, name):
     return props[:1] if props else []
 
 
+_KNOWN = {}
+
+
+def _known_decisive(prop, fname):
+    if not _KNOWN and os.path.exists(BASELINE_DECISIVE):
+        _KNOWN.update(json.load(open(BASELINE_DECISIVE)))
+    if prop not in _KNOWN or fname not in _KNOWN[prop]:
+        return None               # no baseline for this function (e.g. a contract added after the last baseline run): rule not applied
+    return set(_KNOWN[prop][fname])
+
+
 def run_group(ctx, prop, lean=True, other_tiers=True):
     from pyvc import engine, solve, run as pyrun
     mods = _all_contract_modules()
@@ -146,6 +157,17 @@ def run_group(ctx, prop, lean=True, other_tiers=True):
             if hook:
                 _native(ctx, prop, fname, hook, failed_dec[0], aux=True)
             continue
+        known = _known_decisive(prop, fname)
+        if known is not None:
+            # only an obligation that EXISTED AND DISCHARGED on the unchanged tree can be reported when it fails; a decisive obligation
+            # that is new (an assert somebody added, a hazard of a rewritten expression) never passed before: the function degrades
+            fresh = [ob for ob in failed_dec if ob_key(ob) not in known]
+            if fresh:
+                for ob in fresh:
+                    p['undecided'].append({'function': fname, 'obligation': ob.ident, 'verdict': ob.verdict, 'note': 'not in the baseline'})
+                print('PROOF-DEGRADED {}: {} decisive obligation(s) fail that did not exist on the unchanged tree (new or reworded code); '
+                      'the bounded tier decides'.format(fname, len(fresh)))
+                failed_dec = [ob for ob in failed_dec if ob_key(ob) in known]
         for ob in failed_dec:
             _report(ctx, prop, fname, c, ob)
         if failed_aux and not failed_dec:
@@ -186,6 +208,15 @@ def run_group(ctx, prop, lean=True, other_tiers=True):
         if c.get('note'):
             ctx.assume('{}:{} - {}'.format(rel, qual, c['note']))
     return per_func
+
+
+def ob_key(ob):
+    """identity of an obligation across runs: kind + its text (contract clause / hazard description), without line numbers"""
+    import hashlib
+    return hashlib.sha1('{}|{}'.format(ob.kind, ob.name).encode()).hexdigest()[:16]
+
+
+BASELINE_DECISIVE = os.path.join(core.VERIF, 'baseline_decisive.json')
 
 
 def _native(ctx, prop, fname, hook, ob, aux=False):
